@@ -16,6 +16,8 @@ CONSTANTS
   V6Key = "d6"
   V4Key = "d4"
   NegRule = "rfc2308"
+  FailTTL = 0
+  FailRule = "terminal"
   Routes = {"msg", "msgw", "wire"}
   Reqs = {1}
   MaxLeases = 2
@@ -29,7 +31,7 @@ CONSTANTS
   PubInits <- PubA
   Res = {1}
 SPECIFICATION Spec64
-VIEW ViewA
+VIEW View64
 INVARIANTS TypeOKA
 PROPERTIES ServedLive TTLShown TTLMonotone ComposedMin LateWriteLoses
 CHECK_DEADLOCK FALSE
